@@ -628,6 +628,13 @@ func (g goCall) CallFromStack(context *Context, n int, scratch []reflect.Value) 
 		for i := 0; i < expected; i++ {
 			arg := argsStart + i
 			if v, err := ConvertWithContext(vm.Stack[arg].Value, t.In(i+1), context); err == nil {
+				// Functions expect the features, areas and so on that they're
+				// passed to exist, and nil is what functions like find-area
+				// return when they don't. Geometries are the exception, as
+				// intersecting, for one, is defined for a missing geometry.
+				if pt := t.In(i + 1); pt.Kind() == reflect.Interface && pt.NumMethod() > 0 && pt != geometryInterface && isNil(v) {
+					return nil, fmt.Errorf("%s: expected %s, found nothing", g.String(), pt)
+				}
 				scratch = append(scratch, v)
 			} else {
 				return nil, fmt.Errorf("%s: %s", g.String(), err.Error())
@@ -680,6 +687,16 @@ func (g goCall) CallFromStack(context *Context, n int, scratch []reflect.Value) 
 		})
 	}
 	return scratch, nil
+}
+
+var geometryInterface = reflect.TypeOf((*b6.Geometry)(nil)).Elem()
+
+func isNil(v reflect.Value) bool {
+	switch v.Kind() {
+	case reflect.Interface, reflect.Ptr, reflect.Map, reflect.Slice, reflect.Func, reflect.Chan:
+		return v.IsNil()
+	}
+	return false
 }
 
 func (g goCall) ToFunctionValue(t reflect.Type, context *Context) reflect.Value {
